@@ -4,6 +4,21 @@ Import ListNotations.
 Require Import Base.Wire Base.PyStr C04.Model.
 Open Scope N_scope.
 
+Lemma NoDup_app_snoc {B} (l : list B) x : NoDup l -> ~ In x l -> NoDup (l ++ [x]).
+Proof.
+  intros Hnd Hni. induction l as [|y l IH]; [constructor; [intros []|constructor]|].
+  inversion Hnd as [|? ? Hy Hl]; subst. cbn [app]. constructor.
+  - intro Hin. apply in_app_iff in Hin as [Hin|[Hin|[]]]; [contradiction|]. subst. apply Hni. left. reflexivity.
+  - apply IH; [exact Hl|]. intro Hin. apply Hni. right. exact Hin.
+Qed.
+
+Lemma seq_eqb_sym a b : seq_eqb a b = seq_eqb b a.
+Proof.
+  destruct (seq_eqb a b) eqn:E1, (seq_eqb b a) eqn:E2; try reflexivity.
+  - apply seq_eqb_eq in E1. subst. rewrite seq_eqb_refl in E2. discriminate.
+  - apply seq_eqb_eq in E2. subst. rewrite seq_eqb_refl in E1. discriminate.
+Qed.
+
 Section NKeys.
 Context {A : Type}.
 Implicit Types (l : list (N * A)).
@@ -90,8 +105,6 @@ Proof.
 Qed.
 End NKeys.
 
-Lemma NoDup_app_snoc_N : True. Proof. trivial. Qed.
-
 Lemma uget_nget id us : uget id us = nget id us.
 Proof. induction us as [|[i u] us IH]; [reflexivity|]. cbn [uget nget]. rewrite IH. reflexivity. Qed.
 Lemma uset_nset id u us : uset id u us = nset id u us.
@@ -107,6 +120,101 @@ Lemma dict_get_sdel_same k l : dict_get k (@sdel A k l) = None.
 Proof.
   induction l as [|[k2 v] l IH]; [reflexivity|]. cbn [sdel filter fst].
   destruct (seq_eqb k2 k) eqn:E; cbn [negb]; [exact IH|].
-  cbn [dict_get]. rewrite seq_eqb_sym_local. rewrite E. exact IH.
+  cbn [dict_get]. rewrite seq_eqb_sym, E. exact IH.
+Qed.
+
+Lemma dict_get_sdel_other k k' l : seq_eqb k' k = false -> dict_get k' (@sdel A k l) = dict_get k' l.
+Proof.
+  intro Hne. induction l as [|[k2 v] l IH]; [reflexivity|]. cbn [sdel filter fst].
+  destruct (seq_eqb k2 k) eqn:E; cbn [negb].
+  - apply seq_eqb_eq in E. subst k2. cbn [dict_get]. rewrite Hne. exact IH.
+  - cbn [dict_get]. destruct (seq_eqb k' k2); [reflexivity|exact IH].
+Qed.
+
+Lemma dict_get_sdel_some k k' l v : dict_get k' (@sdel A k l) = Some v -> dict_get k' l = Some v /\ seq_eqb k' k = false.
+Proof.
+  intro H. destruct (seq_eqb k' k) eqn:E.
+  - apply seq_eqb_eq in E. subst. rewrite dict_get_sdel_same in H. discriminate.
+  - rewrite dict_get_sdel_other in H by exact E. auto.
+Qed.
+
+Lemma dict_get_snoc k l k2 (v : A) :
+  dict_get k (l ++ [(k2, v)]) =
+  match dict_get k l with Some w => Some w | None => if seq_eqb k k2 then Some v else None end.
+Proof.
+  induction l as [|[k3 w] l IH]; cbn [app dict_get]; [reflexivity|].
+  destruct (seq_eqb k k3); [reflexivity|exact IH].
+Qed.
+
+Lemma dict_has_get k l : dict_has k l = match @dict_get A k l with Some _ => true | None => false end.
+Proof. reflexivity. Qed.
+
+Lemma dict_get_set_same k (v : A) l : dict_get k (dict_set k v l) = Some v.
+Proof.
+  induction l as [|[k2 w] l IH]; cbn [dict_set dict_get]; [rewrite seq_eqb_refl; reflexivity|].
+  destruct (seq_eqb k k2) eqn:E; cbn [dict_get]; rewrite E; [reflexivity|exact IH].
+Qed.
+
+Lemma dict_get_set_other k k' (v : A) l : seq_eqb k' k = false -> dict_get k' (dict_set k v l) = dict_get k' l.
+Proof.
+  intro Hne. induction l as [|[k2 w] l IH]; cbn [dict_set dict_get]; [rewrite Hne; reflexivity|].
+  destruct (seq_eqb k k2) eqn:E; cbn [dict_get].
+  - apply seq_eqb_eq in E. subst k2. rewrite Hne. reflexivity.
+  - destruct (seq_eqb k' k2); [reflexivity|exact IH].
 Qed.
 End SKeys.
+
+Section NKeys2.
+Context {A : Type}.
+Implicit Types (l : list (N * A)).
+
+Lemma nset_nset_same id (v w : A) l : nset id w (nset id v l) = nset id w l.
+Proof.
+  induction l as [|[i x] l IH]; cbn [nset].
+  - rewrite N.eqb_refl. reflexivity.
+  - destruct (N.eqb i id) eqn:E; cbn [nset]; rewrite E; [reflexivity|]. rewrite IH. reflexivity.
+Qed.
+
+Lemma nset_noop id (v : A) l : nget id l = Some v -> nset id v l = l.
+Proof.
+  induction l as [|[i x] l IH]; cbn [nget nset]; [discriminate|].
+  destruct (N.eqb i id) eqn:E; intro H.
+  - inversion H; subst. reflexivity.
+  - rewrite IH by exact H. reflexivity.
+Qed.
+
+Lemma nget_None_notin id l : nget id l = None -> ~ In id (map fst l).
+Proof.
+  induction l as [|[i x] l IH]; cbn [nget map fst]; [intros _ []|].
+  destruct (N.eqb i id) eqn:E; [discriminate|]. intros H [Hin|Hin].
+  - subst. rewrite N.eqb_refl in E. discriminate.
+  - exact (IH H Hin).
+Qed.
+End NKeys2.
+
+Lemma existsb_rev {B} (f : B -> bool) l : existsb f (rev l) = existsb f l.
+Proof.
+  destruct (existsb f l) eqn:E.
+  - apply existsb_exists in E as [x [Hin Hf]]. apply existsb_exists. exists x. split; [apply in_rev in Hin; exact Hin|exact Hf].
+  - destruct (existsb f (rev l)) eqn:E2; [|reflexivity].
+    apply existsb_exists in E2 as [x [Hin Hf]]. apply in_rev in Hin.
+    assert (existsb f l = true) by (apply existsb_exists; eauto). congruence.
+Qed.
+
+Lemma uniq_rev_masks h seen l :
+  existsb (fun e => seq_eqb h (snd e)) (uniq_rev seen l) =
+  negb (existsb (seq_eqb h) seen) && existsb (fun e : Z * str => seq_eqb h (snd e)) l.
+Proof.
+  revert seen. induction l as [|[w m] l IH]; intro seen; [rewrite andb_false_r; reflexivity|].
+  cbn [uniq_rev existsb snd]. destruct (existsb (seq_eqb m) seen) eqn:Em.
+  - rewrite IH. destruct (seq_eqb h m) eqn:Eh; [|reflexivity].
+    apply seq_eqb_eq in Eh. subst m. rewrite Em. reflexivity.
+  - cbn [existsb snd]. rewrite IH. cbn [existsb].
+    destruct (seq_eqb h m) eqn:Eh; cbn [orb].
+    + apply seq_eqb_eq in Eh. subst m. rewrite Em. reflexivity.
+    + reflexivity.
+Qed.
+
+Lemma dedupe_masks h a :
+  existsb (fun e => seq_eqb h (snd e)) (dedupe_auth a) = existsb (fun e : Z * str => seq_eqb h (snd e)) a.
+Proof. unfold dedupe_auth. rewrite existsb_rev, uniq_rev_masks, existsb_rev. reflexivity. Qed.
